@@ -183,7 +183,13 @@ class LaserMachine(Machine):
                 ops.append({"op": "check"})
             elif config["laser"]:
                 w = rng.random()
-                if w < 0.35:
+                if w < 0.12:
+                    ops.append({"op": "laser.reassign"})
+                elif w < 0.22:
+                    ops.append({"op": "laser.recreate", "keep": rng.random() < 0.4, "gc_first": rng.random() < 0.6})
+                elif w < 0.30:
+                    ops.append({"op": "laser.second"})
+                elif w < 0.45:
                     ops.append({"op": "laser.swap", "keep": rng.random() < 0.6})
                 elif w < 0.55:
                     a = rng.choice(["laser_length", "laser_radius"])
@@ -207,6 +213,8 @@ class LaserMachine(Machine):
         c.world = None
         c.laser = None
         c.old = []              # detached profiles still referenced by "the user": (kind, obj)
+        c.old_lasers = []
+        c.others = []           # further lasers alive in the same world: (laser, kind, spec of its own profile)
         c.read_since_set = False
         c.set_after_read = False
         c.alt = {"kind": cfg["alt"]["kind"], "spec": dict(cfg["alt"]["spec"])} if cfg.get("alt") else None
@@ -420,6 +428,12 @@ class LaserMachine(Machine):
             raise Violation("laser-geometry-stale", c.kind, "laser has %d children for %d segments" % (len(kids), len(geo)))
         if c.laser.laser_profile is not c.obj:
             raise Violation("laser-geometry-stale", c.kind, "laser.laser_profile is not the attached profile")
+        for l2, kind2, spec2 in c.others:
+            geo2 = l2.get_geometry()
+            self._inv_geometry(l2.laser_profile, spec2, kind2, prims=geo2, who="second laser get_geometry()")
+            if len(list(l2.children)) != len(geo2) or any(g.parent is not l2 for g in geo2):
+                raise Violation("laser-geometry-stale", kind2, "a second laser with its own profile lost segments: %d children for %d segments" % (
+                    len(list(l2.children)), len(geo2)))
         env.probe("laser_geometry_checked")
 
     # ---- one step ---------------------------------------------------------------
@@ -480,6 +494,40 @@ class LaserMachine(Machine):
             del old
             self._laser_check(c, env)
             env.event(k, "ok", "keep" if op.get("keep") else "drop")
+        elif k == "laser.reassign":
+            if c.laser is None:
+                return "noop"
+            c.laser.laser_profile = c.laser.laser_profile      # assigning the attached profile again must change nothing
+            self._laser_check(c, env)
+            env.probe("same_profile_reassigned")
+            env.event(k, "ok")
+        elif k == "laser.recreate":
+            if c.laser is None:
+                return "noop"
+            old = c.laser
+            old.parent = None
+            c.laser = None
+            if op.get("keep"):
+                c.old_lasers.append(old)
+            del old
+            if op.get("gc_first"):
+                gc.collect()                                   # the old node (a reference cycle) dies before its successor is born
+            c.laser = Laser(parent=c.world, transform=translate(0.1, 0.2, 0.3), name="laser")
+            c.laser.laser_profile = c.obj                      # the same profile object now serves the new node
+            self._laser_check(c, env)
+            env.probe("laser_node_recreated")
+            env.event(k, "ok", "keep" if op.get("keep") else "drop")
+        elif k == "laser.second":
+            if c.laser is None or len(c.others) >= 2:
+                return "noop"
+            # a second laser, with its own profile object of identical dimensions, lives next to the first one
+            spec2 = dict(c.spec)
+            l2 = Laser(parent=c.world, transform=translate(-0.4, 0.1, 0.0), name="laser2")
+            l2.laser_profile = construct(c.kind, spec2)
+            c.others.append((l2, c.kind, spec2))
+            self._laser_check(c, env)
+            env.probe("second_laser_same_dimensions")
+            env.event(k, "ok")
         elif k == "old.set":
             if not c.old:
                 return "noop"
